@@ -385,7 +385,10 @@ fn exec_step(gi: usize, t: usize, s: &Value, tc: &mut ThreadCtx) {
     HIST.lock().unwrap().push(h);
 }
 
-fn thread_body(t: usize, mine: Vec<(usize, Value)>, sync: bool, home_scoped: bool) {
+/// index of the thread that is started only after every other thread has ended
+const LATE_T: usize = 7;
+
+fn thread_body(t: usize, mine: Vec<(usize, Value)>, sync: bool, home_scoped: bool, leave_entered: bool) {
     let _g = if home_scoped {
         let a = WORLD.lock().unwrap().as_ref().unwrap().stacks[0].clone();
         Some(dispatch::set_default(&a))
@@ -404,6 +407,11 @@ fn thread_body(t: usize, mine: Vec<(usize, Value)>, sync: bool, home_scoped: boo
             TURN.store(gi + 1, Ordering::SeqCst);
             detsim::progress();
         }
+    }
+    if leave_entered && t == 1 && !tc.entered.is_empty() {
+        // thread-exit effect: the thread ends while still inside its spans
+        fault("thread_exit_inside_a_span");
+        return;
     }
     // leave every span that is still entered on this thread (recorded like ordinary exits)
     let mut n = 0;
@@ -426,12 +434,15 @@ impl Engine for RegistryEngine {
         if prop == "C05" && finding_open("F2") {
             m.push("probe:F2".into());
         }
+        if prop == "C06" && finding_open("F32") {
+            m.push("probe:F32".into());
+        }
         m
     }
     fn rule(&self, prop: &str) -> String {
         match prop {
             "C05" => "history (op granularity) or schedule (sync granularity; preemption at every registry ref-count operation via hook H2, at every tracing-core atomic and lock) over a span forest: create (contextual/explicit/root parent), clone, drop, raw enter/exit in any order incl. handle dropped while entered, Span::current captures, slot-reuse churn; reentrancy (total-order runs): the outermost layer releases span handles, or runs a short-lived span of its own, inside another span's on_close; faults: handle dropped / span exited by unwinding, the outermost layer panics in on_close (caught); per layer nothing may be heard about a span after its close; a quarter of the scheduled runs are duels (one span: a thread enters and leaves it while another drops the last handle); home default installed as scoped or as global default; non-trivial = at least one span closed by an exit or by a cascade from a child, and at least 3 spans; distinct = distinct (plan, schedule digest)".into(),
-            _ => "history (total order of operations on 1-3 threads) of enter/exit incl. out-of-order exits and one span entered on several threads, span creation with contextual/explicit/root parents, events with contextual/explicit/root parents, Span::current, SpanTrace capture/walk while ancestors' handles are dropped; non-trivial = at least one contextual creation or event inside a nesting of depth >= 2 and at least one out-of-order exit or cross-thread enter; distinct = distinct plan digest".into(),
+            _ => "history (total order of operations on 1-3 threads) of enter/exit incl. out-of-order exits and one span entered on several threads, span creation with contextual/explicit/root parents, events with contextual/explicit/root parents, Span::current, SpanTrace capture/walk while ancestors' handles are dropped; a quarter of the total-order runs start one more thread after every other thread has ended (thread-start effect; in the F32 probe configuration thread 1 ends while still inside a span); non-trivial = at least one contextual creation or event inside a nesting of depth >= 2 and at least one out-of-order exit or cross-thread enter; distinct = distinct plan digest".into(),
         }
     }
     fn components(&self) -> Value {
@@ -444,7 +455,9 @@ impl Engine for RegistryEngine {
         let prop = g.prop.as_str();
         let thorough = g.tier == "thorough";
         let sync = if prop == "C05" { rng.chance(1, 2) } else { rng.chance(1, 4) };
-        let nthreads = if sync { rng.range(2, 3) } else { rng.range(1, 3) };
+        let probe_f32 = g.mode == "probe:F32";
+        let sync = sync && !probe_f32;
+        let nthreads = if probe_f32 { 2 } else if sync { rng.range(2, 3) } else { rng.range(1, 3) };
         let probe_f2 = g.mode == "probe:F2";
         let f10_guard = finding_open("F10");
         let home = if rng.chance(1, 2) { "scoped" } else { "global" };
@@ -646,10 +659,33 @@ impl Engine for RegistryEngine {
             }
         }
         let sched = if sync { Sched::swarm(&mut rng, 300) } else { Sched::op_order(rng.next_u64()) };
+        // C06, total-order runs: a quarter of the runs start one more thread after all others have ended. While F32 is
+        // open, must-hold runs let every thread leave its spans before it ends; the probe configuration ends thread 1
+        // inside a span
+        let mut late: Vec<Value> = vec![];
+        if prop == "C06" && !sync && (probe_f32 || rng.chance(1, 4)) {
+            let free: Vec<usize> = (0..NSLOTS).filter(|s| !has[*s]).collect();
+            if probe_f32 || !finding_open("F32") {
+                if let Some(&f1) = free.get(1) {
+                    steps.push(json!({"t": 1, "op": "new", "slot": f1, "site": rng.below(20), "parent": -1}));
+                    steps.push(json!({"t": 1, "op": "enter", "slot": f1}));
+                }
+            }
+            if let Some(&f0) = free.first() {
+                late.push(json!({"op": "check_current"}));
+                late.push(json!({"op": "new", "slot": f0, "site": rng.below(20), "parent": -1}));
+                late.push(json!({"op": "enter", "slot": f0}));
+                late.push(json!({"op": "exit", "idx": 0}));
+                late.push(json!({"op": "check_current"}));
+                late.push(json!({"op": "event", "site": rng.below(20), "parent": -1}));
+                late.push(json!({"op": "drop", "slot": f0}));
+            }
+        }
+        let leave_entered = !late.is_empty() && (probe_f32 || !finding_open("F32"));
         json!({
             "engine": "registry", "prop": g.prop, "mode": g.mode,
-            "cfg": {"threads": nthreads, "home": home, "f10_guard": f10_guard},
-            "pre": pre, "steps": steps,
+            "cfg": {"threads": nthreads, "home": home, "f10_guard": f10_guard, "leave_entered": leave_entered},
+            "pre": pre, "steps": steps, "late": late,
             "sched": serde_json::to_value(&sched).unwrap(),
         })
     }
@@ -658,6 +694,9 @@ impl Engine for RegistryEngine {
         let foreign_ops = plan["steps"].as_array().map_or(false, |a| a.iter().any(|s| s["under"].is_string()));
         if plan["mode"] == "probe:F2" && finding_open("F2") && foreign_ops && res.detail.contains("[F2-signature]") {
             return Some("F2 Registry::exit / Clear release references through the thread's current default instead of the span's own collector".into());
+        }
+        if plan["mode"] == "probe:F32" && finding_open("F32") && res.detail.contains("[F32-signature]") {
+            return Some("F32 a thread that ends while still inside a span leaves its span stack in the registry's per-thread storage; a thread started afterwards is handed that storage and, once it has entered and left a span of its own, sees the dead thread's span as its current span (parent of its new spans, scope of its events)".into());
         }
         if finding_open("F10") && res.detail.contains("[F10-signature]") {
             return Some("F10 exit that takes the count to zero under a scoped default loses the parent's release".into());
@@ -672,6 +711,8 @@ impl Engine for RegistryEngine {
         let home_scoped = plan["cfg"]["home"].as_str().unwrap_or("scoped") == "scoped";
         let steps: Vec<Value> = plan["steps"].as_array().cloned().unwrap_or_default();
         let pre: Vec<Value> = plan["pre"].as_array().cloned().unwrap_or_default();
+        let late: Vec<Value> = plan["late"].as_array().cloned().unwrap_or_default();
+        let leave_entered = plan["cfg"]["leave_entered"].as_bool().unwrap_or(false);
         std::panic::set_hook(Box::new(|_| {}));
         let sync = sched.sync;
         let body = move || {
@@ -696,7 +737,7 @@ impl Engine for RegistryEngine {
             for t in first_worker..nthreads {
                 let mine: Vec<(usize, Value)> = indexed.iter().filter(|x| x.1 == t).map(|x| (x.0, x.2.clone())).collect();
                 if sync || t > 0 {
-                    tids.push(detsim::spawn(&format!("t{t}"), move || thread_body(t + if sync { 1 } else { 0 }, mine, sync, home_scoped)));
+                    tids.push(detsim::spawn(&format!("t{t}"), move || thread_body(t + if sync { 1 } else { 0 }, mine, sync, home_scoped, leave_entered)));
                 }
             }
             if !sync {
@@ -716,6 +757,31 @@ impl Engine for RegistryEngine {
                 }
             }
             for id in tids {
+                detsim::join(id);
+            }
+            // thread-start effect: a thread that begins only now, after the others have ended (it is handed the per-thread
+            // storage of one of them); its current span, parents and scopes are its own
+            if !late.is_empty() {
+                let late2: Vec<(usize, Value)> = late.iter().enumerate().map(|(i, s)| (400_000 + i, s.clone())).collect();
+                fault("thread_started_after_others_ended");
+                let id = detsim::spawn("late", move || {
+                    let _g = if home_scoped {
+                        let a = WORLD.lock().unwrap().as_ref().unwrap().stacks[0].clone();
+                        Some(dispatch::set_default(&a))
+                    } else {
+                        None
+                    };
+                    let mut tcl = ThreadCtx { entered: vec![] };
+                    for (gi, s) in late2 {
+                        exec_step(gi, LATE_T, &s, &mut tcl);
+                    }
+                    let mut n = 0;
+                    while !tcl.entered.is_empty() {
+                        let s = json!({"op": "exit", "idx": tcl.entered.len() - 1});
+                        exec_step(450_000 + n, LATE_T, &s, &mut tcl);
+                        n += 1;
+                    }
+                });
                 detsim::join(id);
             }
             // tear-down on the main thread: drop every remaining trace and handle (recorded)
@@ -912,11 +978,16 @@ fn oracle(prop: &str, sync: bool, hist: &[H], log: &[LRec]) {
         v
     };
 
+    let t1_end = hist.iter().filter(|h| h.t == 1).map(|h| h.ret).max().unwrap_or(u64::MAX);
     for h in &hist {
         if !h.applied {
             continue;
         }
         let t = h.t;
+        // F32's signature: the late thread's view diverges while thread 1 has ended inside a span
+        // (any thread whose first use of the registry comes after thread 1 has ended can be handed its storage: the
+        // late thread, but also the main thread if it had not entered anything before)
+        set_violation_suffix(if t != 1 && h.inv > t1_end && thread_stack.get(&1).map_or(false, |v| !v.is_empty()) { " [F32-signature]" } else { "" });
         let cur_uid = thread_stack.get(&t).and_then(|v| v.last().copied()).unwrap_or(0);
         let cur_id = spans.get(&cur_uid).map(|s| s.id).unwrap_or(0);
         let mut became: Vec<u64> = vec![]; // spans whose closability may have changed
